@@ -24,8 +24,6 @@ var scrubberPatterns = []*regexp.Regexp{
 	regexp.MustCompile(fullAddrPattern),
 }
 
-var addressRegexp = regexp.MustCompile(addressPattern)
-
 // An io.Writer that can be used as the output for a logger that first
 // sanitizes logs and then writes to the provided io.Writer
 type LogScrubber struct {
@@ -43,9 +41,21 @@ func Scrub(b []byte) []byte {
 	for _, pattern := range scrubberPatterns {
 		// this is a workaround since go does not yet support look ahead or look
 		// behind for regular expressions.
-		scrubbedBytes = pattern.ReplaceAllFunc(scrubbedBytes, func(b []byte) []byte {
-			return addressRegexp.ReplaceAll(b, []byte("[scrubbed]"))
-		})
+		// Only the address between the two delimiters is replaced, and the
+		// delimiter that ends a match is not consumed: it may also be the
+		// delimiter that starts the next address.
+		var out []byte
+		rest := scrubbedBytes
+		for {
+			loc := pattern.FindSubmatchIndex(rest)
+			if loc == nil {
+				break
+			}
+			out = append(out, rest[:loc[3]]...) // up to the end of the leading delimiter
+			out = append(out, "[scrubbed]"...)
+			rest = rest[loc[2*(pattern.NumSubexp()-1)]:] // from the trailing delimiter
+		}
+		scrubbedBytes = append(out, rest...)
 	}
 	return scrubbedBytes
 }
